@@ -114,6 +114,7 @@ def level1(task):
 
 
 def _apply(dom, J, judge_fn, opn, a, b, results=None):
+    ka, kb = dom.key(a), dom.key(b)
     try:
         kind, r = dom.apply(opn, a, b, budget=STEP_BUDGET)
     except AnalysisError as e:
@@ -122,6 +123,11 @@ def _apply(dom, J, judge_fn, opn, a, b, results=None):
             return None
         raise
     J.n += 1
+    if dom.key(a) != ka or dom.key(b) != kb:
+        which = "left" if dom.key(a) != ka else "right"
+        J.fail("R-immutable", dom.blame(f"{a.cls.module.name}:{a.cls.name}"),
+               f"({_show_key(ka)}) {opn} ({_show_key(kb)}) mutated its {which} operand (now {dom.show(a if which == 'left' else b)}): markers are shared "
+               f"(memoised results, children of other markers), so later operations see the change", {"path": dom.path()})
     try:
         judge_fn(dom, J, opn, a, b, kind, r)
     except Undefined:
@@ -134,10 +140,22 @@ def _apply(dom, J, judge_fn, opn, a, b, results=None):
     return r if kind == "ok" else None
 
 
+def _show_key(k):
+    if k[0] == "ME":
+        return f'{k[1]} {k[2]} "{k[3]}"' + (" [literal-left]" if k[4] else "")
+    if k[0] in ("EqualityMarkerUnion", "InequalityMultiMarker"):
+        return f"{k[0]}({k[1]}: {list(k[2])})"
+    if k[0] in ("MultiMarker", "MarkerUnion"):
+        return ("AND[" if k[0] == "MultiMarker" else "OR[") + ", ".join(_show_key(c) for c in k[1:]) + "]"
+    return k[0]
+
+
 def rebuild(dom, key):
     """operand object from its structural key, built through the interpreted constructors/operators' own classes"""
     it = dom.it
     kind = key[0]
+    if kind == "TEXT":
+        return dom.parse(key[1], budget=STEP_BUDGET)
     if kind == "AnyMarker":
         return dom.any()
     if kind == "EmptyMarker":
@@ -186,6 +204,7 @@ def register(name, fn):
 def explore(chk, judge_name, budget2=None, want_keys=False):
     """run level 1 exhaustively and level 2 up to a budget; feed failures into chk. Returns stats."""
     chk.rule("R-ctor", "operands of the exploration are constructible through the repository's constructors")
+    chk.rule("R-immutable", "operators do not mutate their operands (operands are shared objects)")
     src = str(chk.src)
     tier = chk.tier
     dom = domain(src)
@@ -258,6 +277,16 @@ def explore(chk, judge_name, budget2=None, want_keys=False):
             pairs.append((("MultiMarker", x, y), ("MultiMarker", x, z), "|"))
         else:
             pairs.append((("MarkerUnion", x, y), ("MarkerUnion", x, z), "&"))
+    # (d) operands that only the PARSER produces (it calls MarkerUnion.of directly; `|` goes through cnf/dnf): `x and y or z` texts
+    texts = []
+    atom_texts = [_show_key(k) for k in atom_keys if not k[4]]
+    for i in range(300 if tier == "quick" else 4000):
+        x, y, z = rnd.sample(atom_texts, 3)
+        texts.append(f"{x} and {y} or {z}")
+    stats["level2_parsed_text_operands"] = len(texts)
+    for i, t in enumerate(texts):
+        other = atom_keys[rnd.randrange(len(atom_keys))] if i % 3 else ("TEXT", texts[rnd.randrange(len(texts))])
+        pairs.append((("TEXT", t), other, ("&", "|")[i % 2]))
     space = [0] * (len(compounds) * (len(atom_keys) + len(groups)) * 2)
     cc = [0] * 0
     stats["level2_space_compound_pairs"] = len(compounds) ** 2 * 2 + len(space) * 2
